@@ -291,7 +291,7 @@ PROPS = {
     },
     "C03": {
         "level": "proof",
-        "claim": "Datagram codec and size arithmetic: for every quarter stream id and payload the encoder emits varint(qid)||payload with the exact announced size (all-or-nothing, Kani); the proto and the driver decoders return exactly the bytes after the id varint for inputs of ANY length, attributed to session 4*qid, and reject ids > 2^60-1 / truncated ids with H3_DATAGRAM_ERROR (Verus unit datagram + Kani on every byte string <= 12); Connection::max_datagram_size never underflows and is exact for any limit the peer may advertise. Driver: Driver::receive_datagram hands out only datagrams queued for the requested session, exactly as queued (other sessions' datagrams are dropped and the loop goes on), over ANY sequence of queued items (Verus unit driver).",
+        "claim": "Datagram codec and size arithmetic: for every quarter stream id and payload the encoder emits varint(qid)||payload with the exact announced size (all-or-nothing, Kani); the proto and the driver decoders return exactly the bytes after the id varint for inputs of ANY length, attributed to session 4*qid, and reject ids > 2^60-1 / truncated ids with H3_DATAGRAM_ERROR (Verus unit datagram + Kani on every byte string <= 12); Connection::max_datagram_size never underflows and is exact for any limit the peer may advertise. Driver: Driver::receive_datagram hands out only datagrams queued for the requested session, exactly as queued (other sessions' datagrams are dropped and the loop goes on), over ANY sequence of queued items (Verus unit driver). Send side: the driver's Datagram::write builds exactly varint(session id / 4) || payload for payloads of any length (Verus unit datagram, modular against the proto encoder's contract that Kani proves), and Driver::send_datagram hands exactly that image to QUIC and reports TooLarge IFF quinn does (never refusing a payload for its size otherwise).",
         "note": "Payload length bounded (16 quick / 256 thorough) on Kani; proto and driver Datagram::read for ANY length are Verus unit `datagram`; header part complete. Assumed: quinn refuses exactly frames above its max_datagram_size; loss/reordering are transport behaviour. Not decided: Driver::receive_datagram session filtering (async).",
         "kani": DATAGRAM_KANI + [DRIVER_DGRAM_HDR],
         "verus": [V("datagram"), V("driver")],
@@ -367,11 +367,11 @@ PROPS = {
     },
     "C16": {
         "level": "proof",
-        "claim": "Absolute wire format of the encoders against an independent RFC transcription (never the crate's decoder): frame / stream / setting / capsule / error-code registry values, ALPN h3, the QPACK static table == RFC 9204 Appendix A, frame and stream-header encoders and the WT preambles == RFC bytes for any payload length, datagram prefix, QPACK prefix integers == RFC 7541 5.1, Encoder::encode == 00 00 + exactly one RFC 9204 4.5 static/literal line per field, and the endpoint's local SETTINGS advertise WebTransport, H3 datagrams and extended CONNECT with a zero-capacity QPACK table.",
+        "claim": "Absolute wire format of the encoders against an independent RFC transcription (never the crate's decoder): frame / stream / setting / capsule / error-code registry values, ALPN h3, the QPACK static table == RFC 9204 Appendix A, frame and stream-header encoders and the WT preambles == RFC bytes for any payload length, datagram prefix, QPACK prefix integers == RFC 7541 5.1, Encoder::encode == 00 00 + exactly one RFC 9204 4.5 static/literal line per field, and the endpoint's local SETTINGS advertise WebTransport, H3 datagrams and extended CONNECT with a zero-capacity QPACK table. Datagrams: the driver's send path emits varint(session id / 4) || payload (unit datagram).",
         "note": "The content of the local SETTINGS (WebTransport, H3 datagrams, extended CONNECT, zero-capacity QPACK table) and Encoder::encode's line-per-field grammar are Verus units. Not under contract (HashMap iteration / sort closure / driver): the order in which Settings::generate_frame emits the pairs, sorted_headers ordering (pseudo-headers first), 'exactly one control stream, SETTINGS first' (worker).",
         "kani": [FRAME_KIND_KANI[3], STREAM_KIND_KANI[3], SETTING_ID_KANI[3]] + MISC_KANI + [QPACK_MISC[1]] + QPACK_INT_ENC[:2]
                 + [STREAM_KANI_QUICK[5], STREAM_HEADER_KANI[1], FRAME_WRITE_KANI[0], DATAGRAM_KANI[2], CAPSULE_KANI[0]] + ASYNC_LEAF_KANI[3:5] + ASYNC_WRITE_KANI + [QPACK_LOOKUP_QUICK],
-        "verus": [V("qpack_encode"), V("frame_write", pair=("proto", "p_frame_write_roundtrip_8")), V("settings")],
+        "verus": [V("qpack_encode"), V("frame_write", pair=("proto", "p_frame_write_roundtrip_8")), V("settings"), V("datagram")],
         "not_decided": ["LocalSettingsStream content", "pseudo-header ordering", "Encoder::encode as a whole", "worker emission order"],
     },
     "C17": {
@@ -385,7 +385,7 @@ PROPS = {
     },
     "C18": {
         "level": "proof",
-        "claim": "StatusCode: every numeric constructor yields Ok(c) iff 100 <= v <= 599 with c == v (complete), is_successful iff 200..=299, FromStr accepts exactly decimal strings of values in 100..=599; admission predicates for ALL header maps (Verus unit session): a request is admitted iff :method CONNECT, :scheme https, :protocol webtransport, :authority and :path present, each refusal names the documented cause, the request keeps the whole map; a response is accepted iff :status is present and a valid status, depending on nothing else. Driver (Verus units driver, endpoint): a request that is not a WebTransport extended CONNECT is refused ON ITS OWN STREAM (H3_REQUEST_REJECTED when the method is not CONNECT, H3_MESSAGE_ERROR otherwise - the only codes the assumed stop accepts for that request) and the connection goes on (Ok), admitted requests are handed to the application queue; on the client a response counts as acceptance only with a valid 2xx status (see C02).",
+        "claim": "StatusCode: every numeric constructor yields Ok(c) iff 100 <= v <= 599 with c == v (complete), is_successful iff 200..=299, FromStr accepts exactly decimal strings of values in 100..=599; admission predicates for ALL header maps (Verus unit session): a request is admitted iff :method CONNECT, :scheme https, :protocol webtransport, :authority and :path present, each refusal names the documented cause, the request keeps the whole map; a response is accepted iff :status is present and a valid status, depending on nothing else. Driver (Verus units driver, endpoint): a request that is not a WebTransport extended CONNECT is refused ON ITS OWN STREAM (H3_REQUEST_REJECTED when the method is not CONNECT, H3_MESSAGE_ERROR otherwise - the only codes the assumed stop accepts for that request) and the connection goes on (Ok), admitted requests are handed to the application queue; on the client a response counts as acceptance only with a valid 2xx status (see C02). The canned answers are 200 (ok) and 403 / 404 / 429 (forbidden, not_found, too_many_requests): a refusal is never a 2xx (unit session).",
         "note": "FromStr bounded to strings <= 5 bytes (all u16 decimals; u16::from_str trusted beyond). Known finding: StatusCode::default() == 0. Not under contract: SessionRequest::insert / Headers::insert (HashMap<String,String> + iterator closure: reserved-header immutability is NOT decided), SessionRequest::new (url crate), server refusal codes and connect()'s reaction (async driver).",
         "kani": STATUS_KANI + [K("p_reserved_headers_list", "RESERVED_HEADERS is exactly the five WebTransport pseudo-headers", [P + "session.rs::SessionRequest::RESERVED_HEADERS"])],
         "verus": [V("session"), V("driver"), V("endpoint")],
